@@ -1,2 +1,3 @@
 pub mod pool;
 pub mod math;
+pub mod vault;
